@@ -125,3 +125,25 @@ package persistence
 //@   trusted
 //@   modifies ghost st.seq, ghost eff.hist, ghost histst.removealls, ghost histst.removeall_seq, ghost histst.removeall_loc, ghost histst.removeall_err
 //@   ensures st.seq == old(st.seq) + 1 && histst.removealls == old(histst.removealls) + 1 && histst.removeall_seq == st.seq && histst.removeall_loc == dagFile && histst.removeall_err == err
+
+// History lookups and edits used by the client (C20).
+//@ ghost obs.find_calls int
+//@ ghost obs.find_sf *model.StatusFile
+//@ ghost obs.find_err error
+//@ ghost obs.find_loc string
+//@ ghost obs.find_id string
+//@ ghost histst.updates int
+//@ ghost histst.update_loc string
+//@ ghost histst.update_id string
+//@ ghost histst.update_status *model.Status
+//@ fn (HistoryStore).FindByRequestID(hs, dagFile, requestID) (sf, err)
+//@   props C20
+//@   trusted
+//@   modifies heap(alloc), ghost obs.find_calls, ghost obs.find_sf, ghost obs.find_err, ghost obs.find_loc, ghost obs.find_id
+//@   ensures obs.find_calls == old(obs.find_calls) + 1 && obs.find_sf == sf && obs.find_err == err && obs.find_loc == dagFile && obs.find_id == requestID
+//@   ensures err == nil ==> (sf != nil && sf.Status != nil)
+//@ fn (HistoryStore).Update(hs, dagFile, requestID, st) (err)
+//@   props C20
+//@   trusted
+//@   modifies ghost eff.hist, ghost histst.updates, ghost histst.update_loc, ghost histst.update_id, ghost histst.update_status
+//@   ensures eff.hist == old(eff.hist) + 1 && histst.updates == old(histst.updates) + 1 && histst.update_loc == dagFile && histst.update_id == requestID && histst.update_status == st
